@@ -1045,8 +1045,8 @@ def perform(env: Env, act):
                 k = lib_num(spec)
                 if spec['t'] == 'prefix':
                     k = k.factor
-                elif spec['t'] in ('int', 'float'):
-                    k = Decimal(k)      # int ** -1 would be a float
+                elif spec['t'] == 'float':
+                    k = Decimal(k)      # (a float to a power is a float)
                 nums.append((k, e))
             spell = act.get('spell', 0)
             sig = repr((act['items'], act['nums'], spell))
